@@ -177,6 +177,10 @@ fn gen(rng: &mut Rng, n: usize, tier: &str) -> Vec<Req> {
         let sc = sr::gen_overlay(rng);
         out.push(Req::new(format!("c06.resolve {reps} {} {} {}", sc.ver, rng.below(8), sc.payload()), format!("overlay{}", sr::shape(&sc))));
     }
+    for _ in 0..(n / 10).max(3) {
+        let sc = sr::gen_promotion(rng);
+        out.push(Req::new(format!("c06.resolve {reps} {} {} {}", sc.ver, rng.below(8), sc.payload()), format!("promotion{}", sr::shape(&sc))));
+    }
     eprintln!("generator statistics: {stats:?}");
     out
 }
